@@ -187,6 +187,55 @@ def _where_calls(node):
     return out
 
 
+def _intersection_form(ctx, R, f, var, helper, rp_alias, cons):
+    """Alternative spelling of the resources filter: intersect the id sets
+    of all entries in Python, then one IN clause.  Returns True/False when
+    the form is recognised (obligations recorded), None otherwise."""
+    loops = [x for x in own_nodes(f.node) if isinstance(x, ast.For)
+             and src(x.iter) == '%s.items()' % var]
+    if len(loops) != 1:
+        return None
+    lp = loops[0]
+    inters = [a for a in own_nodes_of(lp) if isinstance(a, ast.AugAssign)
+              and isinstance(a.op, ast.BitAnd)]
+    if len(inters) != 1:
+        return None
+    acc = src(inters[0].target)
+    hcalls = [c for c in own_nodes_of(lp) if isinstance(c, ast.Call)
+              and helper in C.call_name(ctx, f, c)]
+    R.ob('R13.2', cons + ':helper', len(hcalls) == 1,
+         'every entry is looked up with %s' % helper.split(':')[1],
+         len(hcalls), func=f, node=lp)
+    # the accumulator may be (re)started only on a sentinel that cannot be
+    # confused with an empty intersection
+    ifs = C.guarding_ifs(inters[0], lp)
+    restart_ok = True
+    why = 'unconditional intersection'
+    for i, br in ifs:
+        t = src(i.test).replace(' ', '')
+        if t == acc or t == 'not' + acc:
+            restart_ok = False
+            why = 'the accumulator is restarted when it is empty: an ' \
+                'empty intersection followed by another class yields that ' \
+                "class's providers (if %s: ... else: %s = ...)" % (acc, acc)
+        elif t in ('%sisnotNone' % acc, '%sisNone' % acc):
+            why = 'restart on the None sentinel only'
+        else:
+            restart_ok = False
+            why = 'intersection under %s' % src(i.test)
+    R.ob('R13.2', cons + ':every-entry-narrows', restart_ok,
+         'every resources entry narrows the result: the intersection of the '
+         'per-class provider sets never starts over', why, func=f,
+         node=inters[0])
+    wh = [w for w in _where_calls(f.node)
+          if acc in src(w.value.args[0])]
+    okw = len(wh) == 1 and isinstance(wh[0].value.args[0], ast.Call) and \
+        src(wh[0].value.args[0].func) == '%s.c.id.in_' % rp_alias
+    R.ob('R13.2', cons + ':clause', okw, 'id IN <intersection>',
+         [src(w.value)[:60] for w in wh], func=f)
+    return True
+
+
 def r132(ctx, R):
     prog = ctx.prog
     f = prog.func(DBF)
@@ -222,7 +271,13 @@ def r132(ctx, R):
             continue
         if kind == 'in-loop':
             blocks = [x for x in own_nodes(f.node) if isinstance(x, ast.For)
-                      and src(x.iter) == '%s.items()' % var]
+                      and src(x.iter) == '%s.items()' % var
+                      and not C.guarding_ifs(x, f.node)]
+            if not blocks:
+                alt = _intersection_form(ctx, R, f, var, helper, rp_alias,
+                                         cons)
+                if alt is not None:
+                    continue
         else:
             blocks = [x for x in own_nodes(f.node) if isinstance(x, ast.If)
                       and isinstance(x.test, ast.Name) and x.test.id == var
